@@ -183,3 +183,33 @@ int ctl_try_next_told(const int *fds, int n)
 	}
 	return n;
 }
+
+/* K8-freestack: the small-buffer idiom, released without / with the test that excludes the local array */
+void *malloc(unsigned long);
+void free(void *);
+int ctl_free_stack(unsigned long n, int fd);
+int ctl_free_heap_only(unsigned long n, int fd);
+int ctl_free_stack(unsigned long n, int fd)
+{
+	char small[64], *p;
+	int ret;
+	p = (n <= sizeof(small)) ? small : malloc(n);
+	if (p == 0)
+		return -1;
+	ret = ctl_can_fail(fd, p, n);
+	free(p);
+	return ret;
+}
+
+int ctl_free_heap_only(unsigned long n, int fd)
+{
+	char small[64], *p;
+	int ret;
+	p = (n <= sizeof(small)) ? small : malloc(n);
+	if (p == 0)
+		return -1;
+	ret = ctl_can_fail(fd, p, n);
+	if (p != small)
+		free(p);
+	return ret;
+}
